@@ -26,6 +26,7 @@ pub fn dispatch(prop: &str, ctx: Ctx) -> ! {
         "C02" => render_prop(ctx, &c02()),
         "C11" => render_prop(ctx, &c11()),
         "C18" => render_prop(ctx, &c18()),
+        "C09" => render_prop(ctx, &c09()),
         "C13" => crate::c13::run(ctx),
         "C07" => crate::probes::run(ctx, "C07"),
         "C08" => crate::probes::run(ctx, "C08"),
@@ -56,6 +57,12 @@ pub struct RenderProp {
     pub dynamic_load: bool,
     /// enumerated projects checked in addition to the generated ones (index = stable id for replay)
     pub fixed_projects: Option<fn(Tier) -> Vec<(usize, Project)>>,
+}
+
+/// properties whose packages expand `load_locales!()` a second time in a nested module (state that survives an
+/// expansion inside the compiler process)
+fn second_expansion(id: &str) -> bool {
+    id == "C09"
 }
 
 fn fail(sig: &str, detail: J) -> Failure {
@@ -234,6 +241,10 @@ fn emit_pkg(ws: &Path, pkg: &Pkg, rp: &RenderProp, only_keys: Option<&BTreeSet<u
     };
     if rp.dynamic_load {
         main = emit::with_tables(&main, &pkg.project);
+    }
+    if second_expansion(rp.id) {
+        main = main.replacen("use i18n::*;\n", "use i18n::*;\nmod second_expansion {\n    leptos_i18n::load_locales!();\n}\nmod third_expansion {\n    leptos_i18n::load_locales!();\n    pub fn probe() -> usize {\n        <i18n::Locale as leptos_i18n::Locale>::get_all().len()\n    }\n}\n", 1);
+        main = main.replacen("fn main() {\n", "fn main() {\n    assert!(third_expansion::probe() >= 1);\n", 1);
     }
     let style = Style {
         format: Format::Json,
@@ -1168,6 +1179,45 @@ pub fn c18() -> RenderProp {
                distinct = hash of the resolved values",
         assumptions: &["ICU4X compiled data of the generated binary is the data leptos_i18n links (same crate instance through the lock file)"],
         min_nontrivial: 10,
+        shape: None,
+        flavours: false,
+        dynamic_load: false,
+        fixed_projects: None,
+    }
+}
+
+pub fn c09() -> RenderProp {
+    RenderProp {
+        id: "C09",
+        cfg: |_| GenCfg {
+            locales: (1, 3),
+            p_namespaces: 40,
+            keys: (3, 6),
+            sub_depth: 2,
+            w_kinds: [3, 6, 2, 2, 2, 2, 2],
+            p_null: 6,
+            p_absent: 6,
+            p_inherits: 30,
+            max_pieces: 4,
+            max_comp_depth: 2,
+            ..GenCfg::default()
+        },
+        opts: PlanOpts {
+            assignments: 1,
+            max_counts: 4,
+            display_backend: false,
+            view_backend: false,
+            ..PlanOpts::default()
+        },
+        packages: (6, 64),
+        tape_len: 1500,
+        nontrivial: |k| !k.sig.is_empty() || k.has_range || k.has_plural,
+        classes: |_| vec!["load_locales-expanded-three-times-in-one-crate".to_string()],
+        rule: "stage 2 (generated crates): each package expands `load_locales!()` three times in one crate (top level and two nested modules), \
+               so that whatever an expansion leaves behind in the compiler process meets the next one; the package must compile, run, and \
+               td_string! of every key must equal the model. one case = one key; non-trivial = interpolation / range / plural key; distinct = hash",
+        assumptions: &[],
+        min_nontrivial: 3,
         shape: None,
         flavours: false,
         dynamic_load: false,
